@@ -144,8 +144,10 @@ TEXT = {
           "(isolated by the proved root counter), each candidate accepted by a sign change of the specialised polynomial across its "
           "isolating interval (C11_sign_change_root, intermediate value theorem), rejected by interval evaluation "
           "(C10_sign_interval_only, unconditional), or decided by the algebraic zero test (C10_sign_sound) for roots of even "
-          "multiplicity; identically vanishing specialisations give no roots (C11_identically_zero). Trusted, not formalised: every "
-          "real root of the specialised polynomial is a root of a non-zero eliminant. Generator: rational specialisations, algebraic "
+          "multiplicity; identically vanishing specialisations give no roots (C11_identically_zero). The whole reference is proved: "
+          "C11_rootsUnder_exact - whenever rootsUnder answers, its list denotes exactly the distinct real roots of the specialised "
+          "polynomial, strictly increasing, each a valid algebraic number (uses elimY_root: every root of the specialisation is a root "
+          "of the eliminant, from resultant_vanishes; realRoots_isolates; isRootAt_sound; continuity of the specialisation). Generator: rational specialisations, algebraic "
           "coefficients with spurious conjugate candidates, vanishing leading coefficients and contents, double and rational roots.",
   "design_ref": "5.11",
   "note": "cases whose algebraic zero test exceeds Sylvester order 8, or whose eliminant degenerates to 0 while the specialisation does not, are skipped and counted",
